@@ -1,11 +1,829 @@
-//! C13 — not implemented yet (stub).
-use crate::engine::Ctx;
+//! C13 — virial coefficients equal the low-density limit of the compressibility factor.
+//!
+//! Oracle: B, C, dB/dT, dC/dT returned by the `Residual` trait are compared with the limits
+//! rho -> 0 of y(rho) = (Z-1)/rho and of its divided difference, computed from *states of
+//! the same model* (State::new_nvt + State::compressibility) on geometric density ladders by
+//! Neville extrapolation with an error estimate (DESIGN.md 3.3 verdict rule); the temperature
+//! derivatives are compared with Ridders' derivative of the coefficient itself.
+use crate::engine::{Ctx, Gen, Obs, PanicPolicy, PartCfg};
+use crate::model::*;
+use crate::oracle::{derivative_verdict, neville_zero, ridders, DVerdict};
+use crate::scales::{contrib_values, PD};
+use feos::core::Derivative::DV;
+use feos::core::{Contributions, ReferenceSystem, Residual, State, StateHD};
+use ndarray::Array1;
+use num_dual::{Dual3_64, DualNum, HyperDual64};
+use quantity::*;
+use serde::{Deserialize, Serialize};
 use serde_json::Value;
+use std::sync::Arc;
 
-pub fn run(_ctx: &Ctx) {
-    panic!("C13: check not implemented yet");
+#[derive(Serialize, Deserialize, Clone, Debug)]
+pub struct Case {
+    pub spec: ModelSpec,
+    /// T / T* (T* = mole-fraction average of the pure critical temperatures)
+    pub tau: f64,
+    pub x: Vec<f64>,
+    /// second composition: end point of the line used for the quadratic-form check
+    pub xb: Vec<f64>,
 }
 
-pub fn replay(_ctx: &Ctx, _part: &str, _case: &Value) -> bool {
-    panic!("C13: check not implemented yet");
+fn has_ions(spec: &ModelSpec) -> bool {
+    spec.pure
+        .iter()
+        .any(|p| p["model_record"]["z"].as_f64().unwrap_or(0.0) != 0.0)
+}
+
+pub fn decode(g: &mut Gen) -> Case {
+    let mut spec = gen_model(g, &GenCfg::all(3));
+    if has_ions(&spec) {
+        // electrolyte solutions are excluded by the property: keep the (ion-free) solvent
+        let keep: Vec<usize> = (0..spec.n())
+            .filter(|&i| spec.pure[i]["model_record"]["z"].as_f64().unwrap_or(0.0) == 0.0)
+            .collect();
+        spec = spec.subset(&keep);
+        spec.source = "held2014-solvent-only".into();
+    }
+    let n = spec.n();
+    let tau = g.range(0.5, 3.0);
+    let x = g.simplex(n, 1e-3);
+    let xb = g.simplex(n, 1e-3);
+    Case { spec, tau, x, xb }
+}
+
+/// relative tolerance of B (C) against the extrapolated limit, and the largest error estimate
+/// (relative to the scale) for which the extrapolation is regarded as conclusive
+pub const RTOL_B: f64 = 1e-5;
+pub const RTOL_C: f64 = 1e-3;
+/// temperature derivatives against Ridders on the coefficient (as C01)
+pub const RTOL_DT: f64 = 1e-6;
+/// quadratic form in x (pure roundoff)
+pub const TOL_QUAD: f64 = 1e-10;
+
+/// largest observed values of the asserted quantities (reported in the evidence)
+static WORST: std::sync::Mutex<std::collections::BTreeMap<String, f64>> = std::sync::Mutex::new(std::collections::BTreeMap::new());
+fn worst(key: &str, v: f64) {
+    if v.is_finite() {
+        let mut w = WORST.lock().unwrap();
+        let e = w.entry(key.to_string()).or_insert(0.0);
+        if v > *e {
+            *e = v;
+        }
+    }
+}
+
+// ---------------------------------------------------------------------------------------
+// zero-density state exactly as `StateHD::new_virial` builds it (public fields), used for the
+// *per-contribution* values of B and C at rho = 0 (localisation + signature predicates)
+// ---------------------------------------------------------------------------------------
+fn virial_state<D: DualNum<f64> + Copy>(t: D, rho: D, x: &[f64]) -> StateHD<D> {
+    let volume = D::one();
+    let partial_density: Array1<D> = x.iter().map(|&xi| rho * xi).collect();
+    let moles = partial_density.mapv(|pd| pd * volume);
+    let molefracs: Array1<D> = x.iter().map(|&xi| D::from(xi)).collect();
+    StateHD {
+        temperature: t,
+        volume,
+        moles,
+        molefracs,
+        partial_density,
+    }
+}
+
+/// (name, B_c) at rho = 0 for each contribution
+fn lib_b_contrib(model: &Arc<Model>, t: f64, x: &[f64]) -> Vec<(String, f64)> {
+    let mut rho = HyperDual64::from(0.0);
+    rho.eps1 = 1.0;
+    rho.eps2 = 1.0;
+    let s = virial_state(HyperDual64::from(t), rho, x);
+    model
+        .residual_helmholtz_energy_contributions(&s)
+        .into_iter()
+        .map(|(n, a)| (n, a.eps1eps2 * 0.5))
+        .collect()
+}
+
+fn lib_c_contrib(model: &Arc<Model>, t: f64, x: &[f64]) -> Vec<(String, f64)> {
+    let rho = Dual3_64::from(0.0).derivative();
+    let s = virial_state(Dual3_64::from(t), rho, x);
+    model
+        .residual_helmholtz_energy_contributions(&s)
+        .into_iter()
+        .map(|(n, a)| (n, a.v3 / 3.0))
+        .collect()
+}
+
+// ---------------------------------------------------------------------------------------
+// low-density limits from states
+// ---------------------------------------------------------------------------------------
+const NLAD: usize = 8;
+/// ladder start densities as fractions of max_density
+const LADDERS: [f64; 7] = [3e-2, 3e-3, 3e-4, 3e-5, 3e-6, 3e-7, 3e-8];
+
+/// Neville limit with a conservative error estimate: the last correction of the full tableau
+/// and the change when the coarsest / the finest node is dropped.
+fn limit(h: &[f64], y: &[f64]) -> (f64, f64) {
+    let n = h.len();
+    let (l, e) = neville_zero(h, y);
+    let (l1, _) = neville_zero(&h[1..], &y[1..]);
+    let (l2, _) = neville_zero(&h[..n - 1], &y[..n - 1]);
+    let err = e.max((l - l1).abs()).max((l - l2).abs());
+    if l.is_finite() && err.is_finite() {
+        (l, err)
+    } else {
+        (f64::NAN, f64::INFINITY)
+    }
+}
+
+#[derive(Clone)]
+struct Ladder {
+    /// total: (B_lim, err), (C_lim, err)
+    b: (f64, f64),
+    c: (f64, f64),
+    /// per contribution: name, (B_c, err), (C_c, err)
+    contrib: Vec<(String, (f64, f64), (f64, f64))>,
+    /// largest |Z_res(Total route) - Z_res(Residual route)| seen
+    z_incons: f64,
+}
+
+/// y = (Z-1)/rho at the ladder densities; slopes by divided differences of neighbours
+/// (with rho_{k+1} = rho_k/2 the divided difference is a polynomial in rho_k whose value at 0
+/// is the derivative of y at rho = 0).
+fn ladder(model: &Arc<Model>, t: f64, x: &[f64], rho0: f64) -> Option<Ladder> {
+    let moles = Moles::from_reduced(Array1::from_vec(x.to_vec()));
+    let mut h = vec![];
+    let mut y = vec![];
+    let mut yc: Vec<Vec<f64>> = vec![];
+    let mut names: Vec<String> = vec![];
+    let mut z_incons: f64 = 0.0;
+    for k in 0..NLAD {
+        let rho = rho0 * 0.5f64.powi(k as i32);
+        let s = State::new_nvt(
+            model,
+            Temperature::from_reduced(t),
+            Volume::from_reduced(1.0 / rho),
+            &moles,
+        )
+        .ok()?;
+        let zres = s.compressibility(Contributions::Residual);
+        let ztot = s.compressibility(Contributions::Total);
+        z_incons = z_incons.max((ztot - 1.0 - zres).abs());
+        h.push(rho);
+        y.push(zres / rho);
+        let cv = contrib_values(&s, PD::First(DV));
+        if names.is_empty() {
+            names = cv.iter().map(|(n, _)| n.clone()).collect();
+            yc = vec![vec![]; cv.len()];
+        }
+        for (i, (_, da_dv)) in cv.iter().enumerate() {
+            // p_c = -dA_c/dV ; Z_c = p_c/(rho T) ; y_c = Z_c/rho
+            yc[i].push(-da_dv / (rho * rho * t));
+        }
+    }
+    let slopes = |y: &[f64]| -> (Vec<f64>, Vec<f64>) {
+        let hs: Vec<f64> = h[..NLAD - 1].to_vec();
+        let s: Vec<f64> = (0..NLAD - 1).map(|k| (y[k] - y[k + 1]) / (h[k] - h[k + 1])).collect();
+        (hs, s)
+    };
+    let b = limit(&h, &y);
+    let (hs, s) = slopes(&y);
+    let c = limit(&hs, &s);
+    let contrib = names
+        .into_iter()
+        .zip(yc.iter())
+        .map(|(n, yv)| {
+            let bc = limit(&h, yv);
+            let (hs, s) = slopes(yv);
+            (n, bc, limit(&hs, &s))
+        })
+        .collect();
+    Some(Ladder { b, c, contrib, z_incons })
+}
+
+// ---------------------------------------------------------------------------------------
+// signatures of the known findings
+// ---------------------------------------------------------------------------------------
+/// number of association sites of kind A, B, C of the model (as `AssociationParameters::new`
+/// counts them: one site per (component or GC segment kind) and site type with n > 0).
+fn site_counts(spec: &ModelSpec) -> (usize, usize, usize) {
+    let mut abc = (0, 0, 0);
+    let mut add = |m: &Value, assoc: bool| {
+        if !assoc {
+            return;
+        }
+        if m["na"].as_f64().unwrap_or(0.0) > 0.0 {
+            abc.0 += 1;
+        }
+        if m["nb"].as_f64().unwrap_or(0.0) > 0.0 {
+            abc.1 += 1;
+        }
+        if m["nc"].as_f64().unwrap_or(0.0) > 0.0 {
+            abc.2 += 1;
+        }
+    };
+    match spec.family {
+        Family::GcPcSaft | Family::GcPcSaftFunctional => {
+            if let Some((sf, _)) = &spec.seg {
+                let segs = load_json(&format!("pcsaft/{sf}"));
+                for p in &spec.pure {
+                    let mut kinds: Vec<String> = p["segments"]
+                        .as_array()
+                        .map(|a| a.iter().filter_map(|s| s.as_str().map(|s| s.to_string())).collect())
+                        .unwrap_or_default();
+                    kinds.sort();
+                    kinds.dedup();
+                    for k in kinds {
+                        if let Some(r) = segs.iter().find(|r| r["identifier"].as_str() == Some(&k)) {
+                            add(&r["model_record"], true);
+                        }
+                    }
+                }
+            }
+        }
+        _ => {
+            for p in &spec.pure {
+                add(&p["model_record"], true);
+            }
+        }
+    }
+    abc
+}
+
+/// the association term of this model goes through the iterative (cross-association) solver
+/// (`Association::helmholtz_energy` match arms, src/association/mod.rs:274-307)
+fn cross_association_path(spec: &ModelSpec) -> bool {
+    let (a, b, c) = site_counts(spec);
+    !matches!((a * b, c), (0, 0) | (1, 0) | (0, 1) | (1, 1))
+}
+
+/// One known-finding signature: a predicate over the case (evaluated in `signatures`), the
+/// contributions whose zero-density value it affects and the clauses it can explain.
+struct Sig {
+    id: &'static str,
+    why: &'static str,
+    /// contribution names covered
+    covers: Vec<String>,
+    /// explains non-finite values
+    nan: bool,
+    /// explains a finite but wrong B / C
+    wrong_b: bool,
+    wrong_c: bool,
+}
+
+fn names_with(contribs: &[(String, f64)], pat: &[&str]) -> Vec<String> {
+    contribs
+        .iter()
+        .filter(|(n, _)| {
+            let l = n.to_lowercase();
+            pat.iter().any(|p| l.contains(p))
+        })
+        .map(|(n, _)| n.clone())
+        .collect()
+}
+
+fn signatures(spec: &ModelSpec, chain: bool, cross: bool, bc_lib: &[(String, f64)]) -> Vec<Sig> {
+    let n = spec.n();
+    let mut v = vec![];
+    if spec.family == Family::SaftVRQMie && n >= 2 && spec.opts.inc_nonadd {
+        v.push(Sig {
+            id: "C13/saftvrqmie-mixture-nan",
+            why: "SAFT-VRQ Mie mixture with the non-additive hard-sphere term: x_s = rho_i m_i / rho_s is 0/0 at rho = 0 (src/saftvrqmie/eos/non_additive_hs.rs:63)",
+            covers: names_with(bc_lib, &["non-additive", "non additive", "nonadd"]),
+            nan: true,
+            wrong_b: false,
+            wrong_c: false,
+        });
+    }
+    if spec.family == Family::UVTheory && spec.opts.perturbation == 1 {
+        v.push(Sig {
+            id: "C13/uvtheory-bh-nan",
+            why: "uv-theory Barker-Henderson: the u-fraction uses reduced_density.powf(1.2187) and powf(4.2773); the second-order dual part of rho^1.2187 at rho = 0 is infinite and 0*inf = NaN (src/uvtheory/eos/bh/attractive_perturbation.rs:131-132)",
+            covers: names_with(bc_lib, &["attractive perturbation (bh)"]),
+            nan: true,
+            wrong_b: false,
+            wrong_c: false,
+        });
+    }
+    if spec.family == Family::SaftVRMie && chain {
+        v.push(Sig {
+            id: "C13/saftvrmie-chain-zero-density",
+            why: "SAFT-VR Mie with m != 1: zeta_x/rho_s replaced by 0 at rho = 0 in a_disp_chain (src/saftvrmie/eos/dispersion.rs:212-216)",
+            covers: names_with(bc_lib, &["chain"]),
+            nan: false,
+            wrong_b: true,
+            wrong_c: true,
+        });
+    }
+    if cross {
+        v.push(Sig {
+            id: "C13/cross-association-zero-density",
+            why: "association term on the iterative solver path returns 0 at rho = 0 (src/association/mod.rs:403-409, src/saftvrmie/eos/association.rs:483)",
+            covers: names_with(bc_lib, &["association"]),
+            nan: false,
+            wrong_b: true,
+            wrong_c: true,
+        });
+    }
+    let functional = matches!(
+        spec.family,
+        Family::PcSaftFunctional
+            | Family::GcPcSaftFunctional
+            | Family::PetsFunctional
+            | Family::FmtFunctional
+            | Family::SaftVRQMieFunctional
+    );
+    let polar_names = names_with(bc_lib, &["dipole", "quadrupole"]);
+    if !polar_names.is_empty() && matches!(spec.family, Family::PcSaft | Family::GcPcSaft) {
+        v.push(Sig {
+            id: "C13/polar-third-virial",
+            why: "polar terms fall back to phi2 when phi2^2/(phi2-phi3) is 0/0 at rho = 0: the three-body term phi3 is missing from C (src/pcsaft/eos/polar.rs:231-234, 314-317, 438-441; src/gc_pcsaft/eos/polar.rs:161-164)",
+            covers: polar_names,
+            nan: false,
+            wrong_b: false,
+            wrong_c: true,
+        });
+    }
+    if spec.family == Family::PcSaftFunctional && spec.has_polar() {
+        v.push(Sig {
+            id: "C13/polar-third-virial",
+            why: "polar part of the attractive functional falls back to phi2 when phi2^2/(phi2-phi3) is 0/0 at rho = 0 (src/pcsaft/dft/polar.rs:175-180, 263-268, 363-368)",
+            covers: names_with(bc_lib, &["attractive"]),
+            nan: false,
+            wrong_b: false,
+            wrong_c: true,
+        });
+    }
+    const DFT: &str = "C13/dft-functional-zero-density";
+    if functional && spec.opts.fmt == 2 {
+        v.push(Sig {
+            id: DFT,
+            why: "AntiSymWhiteBear FMT: xi2 = n2v^2/n2^2 is 0/0 at rho = 0 (src/hard_sphere/dft.rs:250, src/pcsaft/dft/pure_saft_functional.rs:94, src/pets/dft/pure_pets_functional.rs:85)",
+            covers: names_with(bc_lib, &["fmt"]),
+            nan: true,
+            wrong_b: false,
+            wrong_c: false,
+        });
+    }
+    if spec.family == Family::SaftVRQMieFunctional {
+        v.push(Sig {
+            id: DFT,
+            why: "SAFT-VRQ Mie attractive functional: x_s = rho_i m_i / rho_s is 0/0 at rho = 0 (src/saftvrqmie/eos/dispersion.rs:173 dispersion_energy_density)",
+            covers: names_with(bc_lib, &["attractive functional"]),
+            nan: true,
+            wrong_b: false,
+            wrong_c: false,
+        });
+    }
+    if matches!(spec.family, Family::PcSaftFunctional | Family::GcPcSaftFunctional) && chain {
+        v.push(Sig {
+            id: DFT,
+            why: "DFT chain functionals: rho*ln(rho + EPSILON) terms of the ideal-chain and hard-chain contributions have derivatives ~1/eps, 1/eps^2 at rho = 0 that cancel only in exact arithmetic (feos-dft/src/ideal_chain_contribution.rs:41, src/pcsaft/dft/pure_saft_functional.rs:188, src/pcsaft/dft/hard_chain.rs:65); the mixture attractive functional sets m_bar = 1 at rho = 0 (src/pcsaft/dft/dispersion.rs:84-90, src/gc_pcsaft/dft/dispersion.rs:72-78)",
+            covers: names_with(bc_lib, &["chain", "attractive functional"]),
+            nan: false,
+            wrong_b: true,
+            wrong_c: true,
+        });
+    }
+    v
+}
+
+/// Compare a coefficient with its limit; on mismatch localise per contribution and route
+/// through the matching known-finding signatures. Returns true if the comparison was conclusive.
+#[allow(clippy::too_many_arguments)]
+fn compare_limit(
+    obs: &mut Obs,
+    what: &str,
+    lib_total: f64,
+    lim: (f64, f64),
+    lib_c: &[(String, f64)],
+    lim_c: &[(String, (f64, f64))],
+    rtol: f64,
+    sigs: &[&Sig],
+    ctx_msg: &str,
+) -> bool {
+    let (l, err) = lim;
+    // scale of the limit side: |limit| and the sum over contributions of |limit_c|, counting
+    // only contributions whose own extrapolation converged (the ideal-chain term rho*ln(rho)
+    // of the functionals has no low-density limit of its own)
+    let s_sum: f64 = lim_c
+        .iter()
+        .filter(|(_, c)| c.0.is_finite() && c.1 <= 1e-2 * c.0.abs())
+        .map(|(_, c)| c.0.abs())
+        .sum::<f64>();
+    let s_lim = l.abs().max(s_sum);
+    obs.count();
+    if !(err <= rtol * s_lim) {
+        obs.inconclusive(format!("{what} limit"));
+        return false;
+    }
+    let sc = if lib_total.is_finite() { s_lim.max(lib_total.abs()) } else { s_lim };
+    let covered: Vec<&String> = sigs.iter().flat_map(|s| s.covers.iter()).collect();
+    let bad = |v: f64, l: (f64, f64)| !((l.0 - v).abs() <= (50.0 * l.1).max(rtol * sc));
+    let mismatch = lib_total.is_finite() && (lib_total - l).abs() > (50.0 * err).max(rtol * sc);
+    if lib_total.is_finite() && !mismatch {
+        obs.class(format!("ok:{what}"));
+        if sigs.is_empty() {
+            worst(&format!("|{what} - limit|/S (agreeing cases without a known-finding signature)"), (lib_total - l).abs() / sc);
+        }
+        worst(&format!("{what} limit error estimate/S (conclusive cases)"), err / s_lim);
+    }
+    if mismatch {
+        obs.class(format!("{what} mismatch"));
+        let loc: Vec<String> = lim_c
+            .iter()
+            .zip(lib_c.iter())
+            .filter(|((_, l), (_, v))| bad(*v, *l))
+            .map(|((n, l), (_, v))| format!("{n}: rho=0 {v:e} vs limit {:e} (err {:e})", l.0, l.1))
+            .collect();
+        let msg = format!(
+            "{what} = {lib_total:e} vs low-density limit {l:e} (err est {err:e}, scale {sc:e}) {ctx_msg} [contributions: {}]",
+            loc.join("; ")
+        );
+        if sigs.is_empty() {
+            obs.fail(msg);
+        } else {
+            // findings whose covered contributions individually mismatch; all matching ones if
+            // the mismatch cannot be localised
+            let mut hit: Vec<&&Sig> = sigs
+                .iter()
+                .filter(|s| {
+                    lim_c
+                        .iter()
+                        .zip(lib_c.iter())
+                        .any(|((n, l), (_, v))| s.covers.contains(n) && bad(*v, *l))
+                })
+                .collect();
+            if hit.is_empty() {
+                hit = sigs.iter().collect();
+            }
+            for s in hit {
+                obs.known_or_fail(s.id, format!("{msg} [{}]", s.why));
+            }
+        }
+    }
+    // masked clause: with a matching signature (mismatch or non-finite total) every
+    // contribution that is not covered still has to agree with its own limit
+    if !sigs.is_empty() && (mismatch || !lib_total.is_finite()) {
+        for ((nm, l), (_, v)) in lim_c.iter().zip(lib_c.iter()) {
+            if covered.contains(&nm) {
+                continue;
+            }
+            obs.count();
+            if l.1 <= rtol * sc && bad(*v, *l) {
+                obs.fail(format!(
+                    "{what} contribution {nm} (not covered by a known finding): rho=0 {v:e} vs limit {:e} (err {:e}) {ctx_msg}",
+                    l.0, l.1
+                ));
+            } else if l.1 <= rtol * sc {
+                obs.class(format!("masked-ok:{what}"));
+            }
+        }
+    }
+    true
+}
+
+pub fn check(case: &Case, obs: &mut Obs) {
+    let spec = &case.spec;
+    obs.class(spec.label());
+    let n = spec.n();
+    obs.class(format!("n={n}"));
+    if has_ions(spec) {
+        obs.discard("electrolyte (excluded by the property)");
+        return;
+    }
+    let model = match spec.build() {
+        Ok(m) => m,
+        Err(e) => {
+            obs.discard(format!("build:{}", e.chars().take(40).collect::<String>()));
+            return;
+        }
+    };
+    let x = &case.x;
+    let t = case.tau * t_scale(spec, &model, x);
+    let moles = Moles::from_reduced(Array1::from_vec(x.clone()));
+    let temp = Temperature::from_reduced(t);
+    if spec.has_association() {
+        obs.class("assoc");
+    }
+    if spec.has_polar() {
+        obs.class("polar");
+    }
+    let chain = spec.pure.iter().any(|p| p["model_record"]["m"].as_f64().unwrap_or(1.0) != 1.0)
+        || matches!(spec.family, Family::GcPcSaft | Family::GcPcSaftFunctional);
+    if chain {
+        obs.class("chain");
+    }
+    let cross = cross_association_path(spec);
+    if cross {
+        obs.class("cross-association path");
+    }
+
+    // ---------- library values ----------
+    let lib = |t: f64| -> Option<[f64; 4]> {
+        let tt = Temperature::from_reduced(t);
+        Some([
+            model.second_virial_coefficient(tt, Some(&moles)).ok()?.to_reduced(),
+            model.third_virial_coefficient(tt, Some(&moles)).ok()?.to_reduced(),
+            model
+                .second_virial_coefficient_temperature_derivative(tt, Some(&moles))
+                .ok()?
+                .to_reduced(),
+            model
+                .third_virial_coefficient_temperature_derivative(tt, Some(&moles))
+                .ok()?
+                .to_reduced(),
+        ])
+    };
+    let Some([b, c, dbdt, dcdt]) = lib(t) else {
+        obs.fail("virial coefficient returned Err for a valid composition");
+        return;
+    };
+    let _ = temp;
+    let bc_lib = lib_b_contrib(&model, t, x);
+    let cc_lib = lib_c_contrib(&model, t, x);
+    for (name, _) in &bc_lib {
+        obs.class(format!("contribution:{name}"));
+    }
+
+    // ---------- signatures ----------
+    let sigs = signatures(spec, chain, cross, &bc_lib);
+    for sg in &sigs {
+        obs.class(format!("signature:{}", sg.id));
+    }
+    let ctx_msg = format!("at T={t:.4} K x={x:?}");
+
+    // ---------- (1) finite ----------
+    let mut all_finite = true;
+    for (name, v) in [("B", b), ("C", c), ("dB/dT", dbdt), ("dC/dT", dcdt)] {
+        obs.count();
+        if !v.is_finite() {
+            all_finite = false;
+            let loc: Vec<String> = bc_lib
+                .iter()
+                .zip(cc_lib.iter())
+                .map(|((n, b), (_, c))| format!("{n}: B_c={b:e} C_c={c:e}"))
+                .collect();
+            let msg = format!("{name} = {v} is not finite {ctx_msg} [{}]", loc.join("; "));
+            // every non-finite contribution must be covered by a NaN signature
+            let bad: Vec<&String> = bc_lib
+                .iter()
+                .zip(cc_lib.iter())
+                .filter(|((_, b), (_, c))| !b.is_finite() || !c.is_finite())
+                .map(|((n, _), _)| n)
+                .collect();
+            let nan_sigs: Vec<&Sig> = sigs.iter().filter(|s| s.nan).collect();
+            let explained = !bad.is_empty() && bad.iter().all(|n| nan_sigs.iter().any(|s| s.covers.contains(n)));
+            if explained {
+                for s in nan_sigs.iter().filter(|s| bad.iter().any(|n| s.covers.contains(n))) {
+                    obs.known_or_fail(s.id, format!("{msg} [{}]", s.why));
+                }
+            } else {
+                obs.fail(msg);
+            }
+        }
+    }
+    if all_finite {
+        obs.class("all four finite");
+    }
+
+    // ---------- (2) low-density limits from states ----------
+    let rho_max = if spec.family == Family::FmtFunctional {
+        let sig = spec.fmt_sigma().unwrap();
+        let v: f64 = x.iter().zip(sig.iter()).map(|(xi, s)| xi * std::f64::consts::FRAC_PI_6 * s.powi(3)).sum();
+        spec.opts.max_eta / v
+    } else {
+        match model.max_density(Some(&moles)) {
+            Ok(r) => r.to_reduced(),
+            Err(e) => {
+                obs.discard(format!("max_density:{e}"));
+                return;
+            }
+        }
+    };
+    let mut best_b: Option<(usize, Ladder)> = None;
+    let mut best_c: Option<(usize, Ladder)> = None;
+    let mut z_incons: f64 = 0.0;
+    for (i, f0) in LADDERS.iter().enumerate() {
+        let Some(l) = ladder(&model, t, x, f0 * rho_max) else { continue };
+        z_incons = z_incons.max(l.z_incons);
+        if best_c.as_ref().map(|(_, bl)| l.c.1 < bl.c.1).unwrap_or(true) {
+            best_c = Some((i, l.clone()));
+        }
+        if best_b.as_ref().map(|(_, bl)| l.b.1 < bl.b.1).unwrap_or(true) {
+            best_b = Some((i, l));
+        }
+    }
+    // Total = 1 + Residual for Z (roundoff of 1 + O(rho B))
+    worst("|Z(Total)-1-Z(Residual)|", z_incons);
+    obs.ensure(z_incons <= 1e-12, || format!("Z(Total) - 1 differs from Z(Residual) by {z_incons:e}"));
+    let (Some((ib, lb)), Some((ic, lc))) = (best_b, best_c) else {
+        obs.discard("no low-density state could be built");
+        return;
+    };
+    obs.class(format!("ladder-B:{:e}", LADDERS[ib]));
+    obs.class(format!("ladder-C:{:e}", LADDERS[ic]));
+
+    let mut conclusive = 0;
+    {
+        let lim_c: Vec<(String, (f64, f64))> = lb.contrib.iter().map(|(n, bc, _)| (n.clone(), *bc)).collect();
+        let sb: Vec<&Sig> = sigs.iter().filter(|s| s.wrong_b || (s.nan && !b.is_finite())).collect();
+        if compare_limit(obs, "B", b, lb.b, &bc_lib, &lim_c, RTOL_B, &sb, &ctx_msg) {
+            conclusive += 1;
+        }
+        let lim_c: Vec<(String, (f64, f64))> = lc.contrib.iter().map(|(n, _, cc)| (n.clone(), *cc)).collect();
+        let sc: Vec<&Sig> = sigs.iter().filter(|s| s.wrong_c || (s.nan && !c.is_finite())).collect();
+        if compare_limit(obs, "C", c, lc.c, &cc_lib, &lim_c, RTOL_C, &sc, &ctx_msg) {
+            conclusive += 1;
+        }
+    }
+
+    // ---------- (3) temperature derivatives vs Ridders on the coefficient ----------
+    if all_finite {
+        let s_b: f64 = bc_lib.iter().map(|(_, v)| v.abs()).sum();
+        let s_c: f64 = cc_lib.iter().map(|(_, v)| v.abs()).sum();
+        for (label, a, idx, s_extra) in [("dB/dT", dbdt, 0usize, s_b / t), ("dC/dT", dcdt, 1usize, s_c / t)] {
+            obs.count();
+            let mut verdict = DVerdict::Inconclusive;
+            let mut info = String::new();
+            let mut mism: Vec<(f64, f64)> = vec![];
+            for h_rel in [2e-2, 5e-3, 6e-2] {
+                let f = |tt: f64| lib(tt).map(|v| v[idx]).filter(|v| v.is_finite());
+                match ridders(f, t, h_rel * t) {
+                    None => {
+                        if info.is_empty() {
+                            info = "neighbour evaluation failed".into();
+                        }
+                    }
+                    Some((d, err)) => {
+                        let s = a.abs().max(d.abs()).max(s_extra);
+                        match derivative_verdict(a, d, err, s, RTOL_DT) {
+                            DVerdict::Ok => {
+                                verdict = DVerdict::Ok;
+                                if !epcsaft_t_dependent(spec) {
+                                    worst(&format!("|{label} - Ridders|/S (agreeing cases without a known-finding signature)"), (a - d).abs() / s);
+                                }
+                                break;
+                            }
+                            DVerdict::Mismatch => {
+                                info = format!("analytic {a:e} vs numeric {d:e} (err est {err:e}, scale {s:e}, h_rel {h_rel})");
+                                if mism.iter().any(|(d0, s0)| (d0 - d).abs() <= 100.0 * RTOL_DT * s.max(*s0)) {
+                                    verdict = DVerdict::Mismatch;
+                                    break;
+                                }
+                                mism.push((d, s));
+                            }
+                            DVerdict::Inconclusive => {}
+                        }
+                    }
+                }
+            }
+            match verdict {
+                DVerdict::Ok => {
+                    conclusive += 1;
+                    obs.class(format!("ok:{label}"));
+                }
+                DVerdict::Inconclusive => obs.inconclusive(label.to_string()),
+                DVerdict::Mismatch => {
+                    conclusive += 1;
+                    let msg = format!("{label}: {info} at T={t:.4} K x={x:?}");
+                    if epcsaft_t_dependent(spec) {
+                        obs.known_or_fail("C13/epcsaft-temperature-derivatives", msg);
+                    } else {
+                        obs.fail(msg);
+                    }
+                }
+            }
+        }
+    }
+
+    // ---------- (4) composition dependence ----------
+    if n >= 2 {
+        // families whose mixing rules make B exactly a quadratic form in x (van der Waals
+        // one-fluid a and linear b; m = 1 perturbation theories with pair sums; BMCSL hard spheres)
+        let quadratic = matches!(
+            spec.family,
+            Family::PengRobinson | Family::Pets | Family::PetsFunctional | Family::FmtFunctional
+        );
+        let bs: Vec<Option<(f64, f64)>> = (0..4)
+            .map(|k| {
+                let s = k as f64 / 3.0;
+                let xs: Vec<f64> = x.iter().zip(case.xb.iter()).map(|(a, b)| a + s * (b - a)).collect();
+                let m = Moles::from_reduced(Array1::from_vec(xs.clone()));
+                let v = model.second_virial_coefficient(Temperature::from_reduced(t), Some(&m)).ok()?.to_reduced();
+                let sc: f64 = lib_b_contrib(&model, t, &xs).iter().map(|(_, v)| v.abs()).sum();
+                Some((v, sc))
+            })
+            .collect();
+        if let [Some(b0), Some(b1), Some(b2), Some(b3)] = bs[..] {
+            let d3 = b0.0 - 3.0 * b1.0 + 3.0 * b2.0 - b3.0;
+            let sc = b0.1 + 3.0 * b1.1 + 3.0 * b2.1 + b3.1;
+            let dist: f64 = x.iter().zip(case.xb.iter()).map(|(a, b)| (a - b).abs()).sum();
+            if d3.is_finite() {
+                if quadratic {
+                    worst("quadratic form: |third difference|/S", d3.abs() / sc);
+                    obs.close_scaled("B(x) quadratic form: third difference along a composition line", d3, 0.0, TOL_QUAD, sc);
+                    if dist > 0.1 {
+                        obs.class("quadratic-form checked");
+                    }
+                } else if d3.abs() > 1e-8 * sc {
+                    obs.class("B(x) not a quadratic form (one-fluid mixing rules)");
+                } else {
+                    obs.class("B(x) quadratic within 1e-8");
+                }
+            }
+        }
+        // scaling the mole numbers does not change the coefficient
+        let m2 = Moles::from_reduced(Array1::from_vec(x.iter().map(|v| v * 7.5).collect()));
+        if let Ok(b2) = model.second_virial_coefficient(Temperature::from_reduced(t), Some(&m2)) {
+            let s_b: f64 = bc_lib.iter().map(|(_, v)| v.abs()).sum();
+            if b.is_finite() {
+                obs.close_scaled("B independent of the total amount", b, b2.to_reduced(), 1e-12, s_b);
+            }
+        }
+    }
+
+    let featured = spec.has_association() || spec.has_polar() || chain;
+    if conclusive >= 3 && featured && b.is_finite() && b.abs() > 1e-3 {
+        obs.nontrivial();
+    }
+    obs.class(if case.tau < 1.0 { "tau<1" } else if case.tau < 2.0 { "tau 1-2" } else { "tau>2" });
+}
+
+/// T-derivatives of ePC-SAFT are a known finding (C01) when sigma or k_ij depend on T.
+fn epcsaft_t_dependent(spec: &ModelSpec) -> bool {
+    if spec.family != Family::EPcSaft {
+        return false;
+    }
+    let water = spec
+        .pure
+        .iter()
+        .any(|p| p["identifier"]["name"].as_str() == Some("water") || p["identifier"]["cas"].as_str() == Some("7732-18-5"));
+    let kij_t = spec.binary.iter().any(|(_, _, b)| {
+        b["k_ij"]
+            .as_array()
+            .map(|a| a.iter().skip(1).any(|v| v.as_f64().unwrap_or(0.0) != 0.0))
+            .unwrap_or(false)
+    });
+    water || kij_t
+}
+
+const PART: PartCfg = PartCfg {
+    name: "sampled",
+    genome_len: 100,
+    cases_quick: 5000,
+    cases_thorough: 500_000,
+    panic: PanicPolicy::Count,
+};
+
+/// lattice: every shipped pure record (PC-SAFT files, SAFT-VR Mie, SAFT-VRQ Mie) at two
+/// reduced temperatures, default options.
+fn lattice_cases() -> Vec<Case> {
+    let mut v = vec![];
+    let mut push = |family: Family, rec: &Value, source: String| {
+        for tau in [0.6, 1.5] {
+            v.push(Case {
+                spec: ModelSpec {
+                    family,
+                    pure: vec![rec.clone()],
+                    binary: vec![],
+                    seg: None,
+                    opts: Opts::default(),
+                    source: source.clone(),
+                },
+                tau,
+                x: vec![1.0],
+                xb: vec![1.0],
+            });
+        }
+    };
+    for (f, recs) in &POOLS.pcsaft {
+        for r in recs {
+            push(Family::PcSaft, r, format!("shipped:{f}"));
+        }
+    }
+    for r in &POOLS.vrmie {
+        push(Family::SaftVRMie, r, "shipped:lafitte2013".into());
+    }
+    for (f, recs) in &POOLS.vrq {
+        for r in recs {
+            push(Family::SaftVRQMie, r, format!("shipped:{f}"));
+        }
+    }
+    v
+}
+
+pub fn run(ctx: &Ctx) {
+    ctx.set_rule("shipped-pure (lattice, exhaustive): every pure record of the 9 shipped PC-SAFT files, lafitte2013 (SAFT-VR Mie) and the 3 SAFT-VRQ Mie files at tau in {0.6, 1.5} with default options. sampled: proptest genomes -> (model spec: 13 families incl. the functionals as bulk models, shipped/perturbed/random records, 1-3 components, options; ion-containing ePC-SAFT specs are reduced to their ion-free solvent) x tau = T/T* in [0.5,3] x two open-simplex compositions. Each case: B, C, dB/dT, dC/dT from the Residual trait; (Z-1)/rho from State::compressibility on 7 geometric density ladders (8 states, ratio 2, starting at 3e-2..3e-8 of max_density), Neville extrapolation to rho=0 of y and of its divided differences, the ladder with the smallest error estimate decides; per-contribution limits from the public contributions route; Ridders derivative of B(T), C(T); B at 4 compositions along a line (quadratic form for PR/PeTS/FMT). Non-trivial: model has association, polar or chain contributions, |B| > 1e-3 A^3 and at least 3 of the 4 comparisons were conclusive. Distinct by hash of the canonical case JSON.");
+    ctx.assume("verdict rule of DESIGN.md 3.3: limit inconclusive if its error estimate (last Neville correction, and change on dropping the coarsest/finest node) exceeds rtol*S_lim (S_lim from the limit side only); violation iff |coefficient - limit| > max(50*err, rtol*S), rtol 1e-5 (B), 1e-3 (C); S = sum over contributions of |limit_c|");
+    ctx.assume("temperature derivatives: Ridders on the public coefficient, rtol 1e-6 of max(|a|,|d|, sum_c|coef_c|/T), mismatch confirmed with a second step size (piecewise-smooth models)");
+    ctx.assume("the quadratic-form composition dependence is asserted only for families whose mixing rules imply it (Peng-Robinson, PeTS, FMT); one-fluid SAFT-type models (segment-fraction or m-bar dependent coefficients) are only classified");
+    ctx.assume("State::compressibility / pressure derivatives of the states are trusted (validated by C01/C02)");
+    ctx.assume("failures matching a signature predicate of a listed known finding are masked per contribution: the contributions not covered by the finding are still compared with their own low-density limits");
+    ctx.run_lattice("shipped-pure", lattice_cases(), PanicPolicy::Count, true, &check);
+    ctx.run_sampled(&PART, &decode, &check);
+    ctx.extra("worst_values", serde_json::json!(*WORST.lock().unwrap()));
+}
+
+pub fn replay(ctx: &Ctx, _part: &str, case: &Value) -> bool {
+    ctx.replay_case::<Case>(case, &check)
 }
